@@ -103,6 +103,12 @@ def alphabet(root, full=True):
         A.append(("position_neg", "textDocument/definition", {"textDocument": td1, "position": {"line": -1, "character": -1}}, True))
         A.append(("params_list", "textDocument/hover", [1, 2], True))
         A.append(("params_null", "workspace/symbol", None, True))
+        # members of the expected name but of another JSON type (a handler, or anything before it, that reaches into them fails)
+        A.append(("td_null", "textDocument/hover", {"textDocument": None, "position": pos1}, True))
+        A.append(("td_string", "textDocument/documentSymbol", {"textDocument": uri("d1.f90")}, True))
+        A.append(("td_list_note", "textDocument/didOpen", {"textDocument": [uri("d1.f90")]}, False))
+        A.append(("td_number_unknown", "fortls/doesNotExist", {"textDocument": 7}, True))
+        A.append(("position_string", "textDocument/definition", {"textDocument": td1, "position": "1:2"}, True))
         # well-formed JSON whose nesting exceeds what the decoder can take in one go
         deep = []
         for _ in range(1500):
